@@ -91,7 +91,10 @@ def prune(build_root, keep):
         return
     ents = [e for e in ents if os.path.isdir(e)]
     ents.sort(key=lambda p: os.path.getmtime(p), reverse=True)
+    now = time.time()
     for e in ents[keep:]:
+        if now - os.path.getmtime(e) < 6 * 3600:
+            continue        # possibly still in use by a long (thorough) run
         shutil.rmtree(e, ignore_errors=True)
 
 
@@ -159,7 +162,7 @@ def build(variant='san', quiet=False):
             f.write(th)
         shutil.rmtree(out, ignore_errors=True)
         os.rename(tmp, out)
-        prune(build_root, int(os.environ.get('VERIF_KEEP_BUILDS', '4')))
+        prune(build_root, int(os.environ.get('VERIF_KEEP_BUILDS', '6')))
         if not quiet:
             sys.stderr.write(f'[build] {variant}-{th} built in {time.time() - t0:.1f}s\n')
     return exe
